@@ -13,13 +13,13 @@ CHECKS = {
         text=('Lean theorems: the structural round trip fromdict(cls, json(asdict(x))) = x below any travelling config for every '
               'instance of every model over int / float / str / bool / Decimal / Path / UUID / date / time / datetime / non-negative '
               'timedelta (named StdLaws) / Enum / Literal / Optional / list / deque / set / frozenset / variadic and fixed tuples / '
-              'NamedTuple / dict, defaultdict, OrderedDict [str, .] / Unions of tagged dataclasses and None / dataclasses, tagged or '
+              'NamedTuple / TypedDict (Required and NotRequired keys) / dict, defaultdict, OrderedDict [str, .] / Unions of tagged dataclasses and None / dataclasses, tagged or '
               'not, with any Meta whose effective settings have no skip rule or TIMESTAMP mode and whose dump keys (incl. all=True '
               'aliases) resolve back, nested to any depth (induction over the conformance derivation, chaining the generated dump '
               'field loop and the tag entry into the load key loop and the constructor step; the Union case finds the tag and '
               "dispatches); the key-spelling condition is itself a theorem on the property's name class for every "
               'key_transform_with_dump (C01_every_dump_transform, through the casing round trips of C08); leaf inverses and the Z '
-              'rewrite over all strings. Outside the fragment (skip rules, catch-all, TypedDict, non-str dict keys, Unions with non- '
+              'rewrite over all strings. Outside the fragment (skip rules, catch-all, non-str dict keys, Unions with non- '
               'dataclass members, negative timedelta) the round trip is carried by the oracle: model of dump + load tied to the code '
               'by type-directed correspondence; round trip through dict, JSON text, list, YAML, TOML and JSON-file mixins, incl. '
               'tagged-config families with stand-alone-first histories; directed reproductions of the recorded findings '),
@@ -30,7 +30,7 @@ CHECKS = {
               'the default dump transform, keys as they are, AUTO, KEBAB / LISP, SNAKE, PASCAL; C02_key_cases reduces the class '
               'condition to a syntactic one on the field names) for every instance of every model over the scalar kinds incl. bytes / '
               'bytearray (base64) and Literal, Optional, list / deque / set / frozenset, variadic and fixed tuples incl. nested ones '
-              '(the generated v1[k] indexing), NamedTuple, dict / defaultdict / OrderedDict [str, .], Unions holding a tagged '
+              '(the generated v1[k] indexing), NamedTuple, TypedDict (Required / NotRequired keys), dict / defaultdict / OrderedDict [str, .], Unions holding a tagged '
               'dataclass next to any other members, and dataclasses whose only customisation is a tag, nested to any depth (induction '
               'over the conformance derivation: shape of the dumped dict, the generated field loop finds every field, finish step, '
               'tag dispatch); consistency of every (v1_key_case, dump transform) pair, AUTO tries the own name first, witness of the '
